@@ -140,7 +140,7 @@ func (c *Ctx) methodOperator(method string) (string, error) {
 	}
 	in := newInterp(c)
 	in.NoLin = true
-	in.Inline = func(o types.Object) bool { return o.Name() == "mixType" }
+	in.Inline = func(o types.Object) bool { return o.Name() == "mixType" || c.isNewHelper(o) }
 	recv := fd.Recv.List[0].Names[0].Name
 	arg := fd.Type.Params.List[0].Names[0].Name
 	paths := in.ExecFunc(fd, map[string]*T{recv: tVar(nil, "v"), arg: tVar(nil, "b")})
@@ -233,7 +233,7 @@ func (c *Ctx) tagPaths(fd *ast.FuncDecl, inline ...string) ([]*tagPath, error) {
 				return true
 			}
 		}
-		return false
+		return c.isNewHelper(o)
 	}
 	bind := map[string]*T{}
 	if fd.Recv != nil && len(fd.Recv.List[0].Names) == 1 {
@@ -558,7 +558,7 @@ func ruleOpsAssign(c *Ctx, r *R) {
 		for _, cd := range q.Conds {
 			cs += cd.String() + ";"
 		}
-		if strings.Contains(cs, "!(v.t == untypedInt)") && strings.Contains(cs, "(v.t != TypeNil)") && !strings.Contains(cs, "!(v.t != TypeNil)") {
+		if strings.Contains(cs, "(v.t != untypedInt)") && strings.Contains(cs, "(v.t != TypeNil)") {
 			typed = len(q.Ret) == 1 && q.Ret[0].String() == "v"
 		}
 	}
